@@ -51,15 +51,16 @@ class InternalCompiler(Compiler):
         for sym, exp in exprs:
             # self.remaining_exps.pop(0)
 
-            is_temp = sym.name.startswith("__")
             symp_exp = self._symplify_exp(exp)
 
             # 2.1 Compile the expression
             iret = self.compile_expr(qc, symp_exp, sym=sym)
 
-            # 2.2 Map iret qubit to the symbol
+            # 2.2 Map iret qubit to the symbol. A named qubit leaves the ancilla set, also a
+            # __ temporary: it can be read more than once, the first statement that reads it
+            # must not uncompute it
             self.expqmap[sym] = iret
-            qc.map_qubit(sym, iret, promote=not is_temp)
+            qc.map_qubit(sym, iret, promote=True)
 
             # 2.3 Remove all the temp qubits
             self.expqmap.remove(qc.uncompute())
